@@ -904,6 +904,47 @@ def c19(prop, tier, seed):
     return r
 
 
+@register("C18")
+def c18(prop, tier, seed):
+    known_ids = vlib.all_known_devs()
+    dev = "{" + ", ".join('"%s"' % d for d in sorted(known_ids & {"D20"})) + "}"
+    base = f"SPECIFICATION Spec\nCONSTANTS\n  Depth = {q(tier, 7, 9)}\n  MaxHandles = 3\n"
+    tail = "VIEW HView\nCONSTRAINT DepthOK\nCHECK_DEADLOCK FALSE\n"
+    d = case_run("MCOpenLock", base + "  Dev = {}\n" + tail + "INVARIANT RefusedChangesNothing\nINVARIANT HeldWhileHandles\nINVARIANT NoUserAfterRelease\n")
+    a = case_run("MCOpenLock", base + f"  Dev = {dev}\n" + tail + "INVARIANT RefusedChangesNothing\nINVARIANT HeldWhileHandles\nINVARIANT Emit\n")
+    hs = [json.loads(x) for x in a["emitted"]["REPLAY"]]
+    keyed = {tuple(json.dumps(s, sort_keys=True) for s in p): p for p in hs}
+    pref = set()
+    for kx in keyed:
+        for i in range(1, len(kx)):
+            pref.add(kx[:i])
+    mx = [p for kx, p in keyed.items() if kx not in pref]
+    wd = vlib.scratch_dir("open")
+    try:
+        nd = os.path.join(wd, "h.ndjson")
+        vlib.write_ndjson(nd, mx)
+        r = vlib.run_vh(["openreplay", "--in", nd], timeout=1200)
+    finally:
+        shutil.rmtree(wd, ignore_errors=True)
+    known_lines, violations = [], [dict(v, property=prop, spec="OpenLock", steps_full=mx[v["behaviour"]]) for v in r["violations"]]
+    for kk in r["known"]:
+        if kk["dev"] in known_ids:
+            known_lines.append("%s %s" % (kk["dev"], " ".join(kk["history"] or [])))
+        else:
+            violations.append({"property": prop, "kind": "unlisted-deviation", "dev": kk["dev"], "history": kk["history"]})
+    cov = {"states": d["distinct"] + a["distinct"], "transitions": d["generated"] + a["generated"], "traces_validated_against_impl": r["behaviours"],
+           "samples": [[("%s(%s,%s)=%s" % (s["op"], s.get("who"), s.get("min_len"), s.get("res"))) if s["op"] == "open" else s["op"] for s in max(mx, key=len)]],
+           "evaluations": r["steps"], "distinct_nontrivial": r["distinct_nontrivial"],
+           "rule": "every sequence (to the depth) of open by another thread / by a child process with min_len below and above the file length, clone, write+flush, "
+                   "run_bg, the two halves of Drop (strong-count test / decrement, interleaved freely) and task end is enumerated by TLC and replayed with real threads, "
+                   "a real child process and the drop_checked pause point; a refused open must leave data/regions lengths and the first bytes unchanged, a successful "
+                   "one must see the flushed data, and a released directory must have no running task of the old holder; non-trivial = at least two opens",
+           "child_process_opens": r["child_process_opens"], "exhaustive": True, "checker_cmd": "tlc MCOpenLock.tla ; vh openreplay"}
+    return {"level": "model_checking", "coverage": cov,
+            "assumptions": ["Linux flock semantics as used by File::try_lock; one child process of the harness binary", "readers and region-derived references are modelled as handles"],
+            "violations": violations, "known": known_lines}
+
+
 def merge(results):
     out = results[0]
     for r in results[1:]:
